@@ -2,24 +2,24 @@ SPECIFICATION MCSpec
 CONSTANTS
   C = 2
   MaxParts = 3
-  Amts = {1, 3, 4, 5}
-  Tots = {3, 4, 5}
-  Secs = {"ok", "flip", "other"}
+  Amts = {1, 2, 3}
+  Tots = {4}
+  Secs = {"ok"}
   Cls = {"far"}
   RegAmt = 4
   RegMin = 0
   BUF = 39
   MPPT = 1
   MaxTicks = 1
-  MaxBlocks = 0
-  MaxDev = 1
+  MaxBlocks = 1
+  MaxDev = 0
   MaxOps = 6
   StaleClaim = FALSE
-  Flds = {"none"}
+  Flds = {"none", "o1", "o1b", "o2", "e1", "e1b", "e2", "e1o1", "e1e2", "o1o2", "o1e2"}
   Sks = {"no"}
   Ups = {FALSE}
   RegMeta = 0
-  ClaimKinds = {"claim"}
+  ClaimKinds = {"claim", "claimk"}
   Bug = "none"
   EmitMod = 1
 CONSTRAINT Bound
